@@ -34,7 +34,7 @@ _p("C04", ["shexing", "c20_config"], ["schemas"],
    "Deductive: exception-freedom (None dereference, missing keys, index range, call shapes, list.remove membership) of the node-kind merge under its "
    "representation invariant, which the constructor is proved to establish; call shapes of shex_graph / profile_graph. Totality of the composed pipeline on "
    "adversarial mixes x configurations x formats: bounded (schemas.py).")
-_p("C05", ["c05_tokens"], ["schemas"], "wip")
+_p("C05", ["c05_tokens", "c18_state"], ["schemas"], "wip")
 _p("C06", ["c06_nt"], ["readers"], "wip")
 _p("C07", ["c07_ttl"], ["readers"], "wip")
 _p("C08", ["c08_channels", "c06_nt"], ["channels"], "wip")
@@ -53,7 +53,7 @@ _p("C11", ["c11_shacl"], ["schemas"],
 _p("C12", ["filtering", "c20_config"], ["pipeline"],
    "Deductive: the threshold is applied once, on raw candidates (filter contracts with the counting recurrence; >= from the statement), the range check of the "
    "argument, frequency = n/N. Monotonicity over pairs of thresholds on whole runs: " + MON)
-_p("C13", ["shexing", "serializers"], ["pipeline"],
+_p("C13", ["shexing", "serializers", "c18_state"], ["pipeline"],
    "Deductive: the tuning pipeline rewrites exactly what each switch documents (cardinality after tuning = documented function of the cardinality and "
    "probability before; counts, kinds, properties never written; with every switch off nothing is written; disable_comments touches comments only; a "
    "disjunction keeps property, cardinality and figures). Presentation options and decimals rounding on whole runs: " + MON)
